@@ -376,41 +376,47 @@ func checkSkipTenant(c SkipTenantCase, cv *cov) (v *evid.Violation) {
 	tn.light = len(c.Lens) > 200
 	grew := false
 	sawFail := false
-	// failedDecode lets a pooled decoder fail on a truncated value of string length l.
+	// failedDecode lets a pooled decoder fail on a truncated value of string length l (an I/O failure) and - in
+	// cases with an even co-tenant parameter - afterwards lets a pooled decoder reject a value for a reason that
+	// lies in the bytes, behind a long string that has already been buffered.
 	failedDecode := func(i int) *evid.Violation {
 		if i >= len(c.Fail) || c.Fail[i] <= 0 {
 			return nil
 		}
 		l := c.Fail[i]
 		val := ref.Value{T: ref.STRUCT, Fields: []ref.Field{{ID: 1, V: ref.Value{T: ref.STRING, Str: patternBytes(0x77, l)}}}}
-		e, _ := ref.Encode(&val)
-		if (i/2)%2 == 0 {
-			e = e[:len(e)-3] // the source ends early: an I/O failure
-		} else {
-			// the value is rejected by the grammar after the long string has been buffered: a second string
-			// field declares a negative size
-			e = append(e[:len(e)-1], 0x0b, 0, 2, 0xff, 0xff, 0xff, 0xff, 0)
+		full, _ := ref.Encode(&val)
+		variants := [][]byte{full[:len(full)-3]} // the source ends early
+		if c.Tenant%2 == 0 {
+			// a second string field declares a negative size
+			variants = append(variants, append(append([]byte(nil), full[:len(full)-1]...), 0x0b, 0, 2, 0xff, 0xff, 0xff, 0xff, 0))
 		}
-		fsr := faultio.NewScriptReader(e, faultio.Plan{Chunks: []int{0}, ErrAt: -1, WithData: i%2 == 0})
 		sawFail = true
-		if c.Reader {
-			x := thrift.NewReaderSkipDecoder(fsr)
-			_, err := x.Next(ref.STRUCT)
-			x.Release()
-			if err == nil {
-				return evid.Failf("ReaderSkipDecoder.Next accepted a value whose last 3 bytes are missing / whose second field declares a negative size")
+		for vi, e := range variants {
+			fsr := faultio.NewScriptReader(e, faultio.Plan{Chunks: []int{0}, ErrAt: -1, WithData: i%2 == 0})
+			what := []string{"a value whose last 3 bytes are missing", "a value whose second field declares a negative size"}[vi]
+			if c.Reader {
+				x := thrift.NewReaderSkipDecoder(fsr)
+				_, err := x.Next(ref.STRUCT)
+				x.Release()
+				if err == nil {
+					return evid.Failf("ReaderSkipDecoder.Next accepted %s", what)
+				}
+			} else {
+				fbr := bufiox.NewDefaultReader(fsr)
+				x := thrift.NewSkipDecoder(fbr)
+				_, err := x.Next(ref.STRUCT)
+				x.Release()
+				fbr.Release(err)
+				if err == nil {
+					return evid.Failf("SkipDecoder.Next accepted %s", what)
+				}
 			}
-		} else {
-			fbr := bufiox.NewDefaultReader(fsr)
-			x := thrift.NewSkipDecoder(fbr)
-			_, err := x.Next(ref.STRUCT)
-			x.Release()
-			fbr.Release(err)
-			if err == nil {
-				return evid.Failf("SkipDecoder.Next accepted a value whose last 3 bytes are missing / whose second field declares a negative size")
+			if v := tn.step(c.Tenant, i, nil); v != nil {
+				return v
 			}
 		}
-		return tn.step(c.Tenant, i, nil)
+		return nil
 	}
 	body := func() {
 		plan := c.Plan
@@ -636,7 +642,7 @@ func TestC09_SkipDecoders(t *testing.T) {
 // TestC09_Big: the same three co-tenant checks with requests, payloads and values of 64 KiB .. 16 MiB, so
 // that buffers of the large size classes are handed out, retained, outgrown and recycled.
 func TestC09_Big(t *testing.T) {
-	rec := evid.New("C09", "c09_big", "enumeration: for n in {2^k+1 : k = 16..24}: reader histories {Next 100; Next n; Peek 9; Release; Next 100}, {Next n; Next n/2; Release; Next 7} and {Peek n; Peek 2n+3; Peek 4n; Next 10; Release; Peek 50; Peek n/2; Peek 3n+1; Next 3n; Release} (io.Reader-backed) and a bytes reader over an n-byte slice of power-of-two capacity with a failing over-read; writer histories {Malloc 100; WriteBinary n-1 (payload of exactly 2^k bytes in a power-of-two capacity buffer); Malloc n/2; Flush; Malloc 100; Flush} and {WriteBinary 2^k first; Malloc 100; Malloc 5000; Flush; WriteBinary 2^k; WriteBinary 10; Flush}; skip-decoder cases {values n, 10, n/2; with and without pool cycling; with a failed decode (a truncated n-byte value, or an n-byte value whose next field declares a negative size) on a pooled decoder in between} for both stream skip decoders; co-tenant covers size classes up to 4n; distinct by construction")
+	rec := evid.New("C09", "c09_big", "enumeration: for n in {2^k+1 : k = 16..24}: reader histories {Next 100; Next n; Peek 9; Release; Next 100}, {Next n; Next n/2; Release; Next 7} and {Peek n; Peek 2n+3; Peek 4n; Next 10; Release; Peek 50; Peek n/2; Peek 3n+1; Next 3n; Release} (io.Reader-backed) and a bytes reader over an n-byte slice of power-of-two capacity with a failing over-read; writer histories {Malloc 100; WriteBinary n-1 (payload of exactly 2^k bytes in a power-of-two capacity buffer); Malloc n/2; Flush; Malloc 100; Flush} and {WriteBinary 2^k first; Malloc 100; Malloc 5000; Flush; WriteBinary 2^k; WriteBinary 10; Flush}; skip-decoder cases {values n, 10, n/2; with and without pool cycling; with a failed decode of a truncated n-byte value (and, for every third n, also of an n-byte value whose next field declares a negative size) on a pooled decoder in between} for both stream skip decoders; co-tenant covers size classes up to 4n; distinct by construction")
 	defer rec.Flush()
 	bt := evid.NewBatch()
 	shard, nshards := evid.Shard()
